@@ -101,7 +101,7 @@ def worker(args):
     for it in range(nprog):
         P, text, T = feat.program(rng)
         try:
-            uri = sess.open(text, "c14_")
+            uri = sess.open(text, "c14_", prefer=feat.type_decl_spans(P, text))
             check_hover(part, sess, uri, P, text, T, rng, max_ids, open_ids)
             check_sighelp(part, sess, uri, P, text, T, rng, max_ids // 2)
             sess.close(uri)
